@@ -4,9 +4,15 @@ namespace Wpull.Pipeline
 open Wpull Wpull.Proto
 
 /-- `P`, `M`, `G`, `T<i>` (task of item i completes), `X<i>` (it raises), `S`, `C<n>` -/
-def decAct? (t : String) : Option (Act ⊕ Nat) :=
+def decAct? (t : String) : Option (Act ⊕ (Nat × Nat)) :=
   match t.toList with
-  | 'R' :: r => (String.ofList r).toNat?.map Sum.inr
+  | 'R' :: r =>
+    match (String.ofList r).splitOn "+" with
+    | [k] => k.toNat?.map (fun k => Sum.inr (k, 0))
+    | [k, m] => match k.toNat?, m.toNat? with
+      | some k, some m => some (Sum.inr (k, m))
+      | _, _ => none
+    | _ => none
   | _ => (decAct1? t).map Sum.inl
 where decAct1? (t : String) : Option Act :=
   match t.toList with
@@ -40,10 +46,11 @@ def digest (s : St) : String :=
   ++ ";" ++ m ++ ";" ++ enabledStr s
 
 /-- replay the action list; one digest per action, `!` + the action index when it is not enabled -/
-def replay (c : Cfg) : St → Nat → List (Act ⊕ Nat) → List String → List String
+def replay (c : Cfg) : St → Nat → List (Act ⊕ (Nat × Nat)) → List String → List String
   | _, _, [], acc => acc.reverse
   | s, k, a :: as, acc =>
-    match stepR c s a with
+    let c := match a with | .inr (_, m) => { c with n := c.n + m } | _ => c
+    match stepR c s (match a with | .inl x => .inl x | .inr (k, _) => .inr k) with
     | none => (("!" ++ toString k) :: acc).reverse
     | some s' =>
       let evs := s'.log.drop s.log.length
